@@ -447,9 +447,22 @@ func run(t *testing.T, sc Scenario) *core.Result {
 	core.Beat()
 
 	var viol *core.Violation
+	// deferred holds a violation that matches the precondition of a recorded known
+	// finding (see /verif/known_findings.txt): it is reported only if the run shows
+	// nothing else, so that a known defect does not mask a different violation.
+	var deferred *core.Violation
+	qualifier := ""
 	fail := func(class, f string, a ...any) {
+		c := class + " " + sc.Dec
+		if qualifier != "" {
+			c += " " + qualifier
+			if deferred == nil {
+				deferred = core.Viol(c, f, a...)
+			}
+			return
+		}
 		if viol == nil {
-			viol = core.Viol(class+" "+sc.Dec, f, a...)
+			viol = core.Viol(c, f, a...)
 		}
 	}
 
@@ -788,7 +801,12 @@ func run(t *testing.T, sc Scenario) *core.Result {
 			}
 			switch {
 			case len(at) == 0 && mustReturn:
+				// known finding: a KLV unit of several KLV items that spans packets
+				if sc.Dec == "klv" && len(sc.Frames[f]) >= 2 && npk[f] >= 2 {
+					qualifier = "multi-item-unit-split"
+				}
 				fail("c07/missing", "clean %s was never returned intact; returns in its window: %s", desc(), renderWindow(hist, s, deadline))
+				qualifier = ""
 			case len(at) > 1:
 				fail("c07/duplicate", "clean %s was returned %d times (Decode calls %v)", desc(), len(at), at)
 			case len(at) == 1 && at[0] > deadline:
@@ -802,6 +820,9 @@ func run(t *testing.T, sc Scenario) *core.Result {
 		}
 	}
 
+	if viol == nil {
+		viol = deferred
+	}
 	res.Violation = viol
 	res.Nontrivial = nFired > 0 && nClean > 0
 	sig := core.HS(uint64(sc.PMS), "c07", sc.Dec)
